@@ -1,5 +1,6 @@
 SPECIFICATION MCSpec
 CONSTANTS
+  AllSchedules = TRUE
   PermuteModules = FALSE
   MaxFuncs = 3
   Idxs <- MIdxs
